@@ -12,14 +12,15 @@ import (
 // WB binds one real world to the model: it owns the mapping ordinal <-> handle and
 // component index <-> ID, executes operations and observes the world through the public API.
 type WB struct {
-	Name string
-	W    *ecs.World
-	U    *Universe
-	IDs  []ecs.ID
-	H    []ecs.Entity       // ordinal -> handle (since the last reset)
-	Ord  map[ecs.Entity]int // handle -> ordinal (every handle issued since the last reset)
-	Regs []*Compiled        // slot -> registered filter
-	Rec  *Recorder          // event recorder, nil if no listener is installed
+	Name  string
+	W     *ecs.World
+	U     *Universe
+	IDs   []ecs.ID
+	H     []ecs.Entity        // ordinal -> handle (since the last reset)
+	Ord   map[ecs.Entity]int  // handle -> ordinal (every handle issued since the last reset)
+	Regs  []*Compiled         // slot -> registered filter
+	Stale []*ecs.CachedFilter // filters that were unregistered (their use is illegal)
+	Rec   *Recorder           // event recorder, nil if no listener is installed
 
 	ResIDs [NumRes]ecs.ResID
 	ResPtr [NumRes]any // the pointer handed to Resources.Add
